@@ -325,3 +325,42 @@ def _place_operand(place):
     o.place = place
     o.const = None
     return o
+
+
+def duration_const_ms(W, name):
+    """value of a `const X: Duration = Duration::from_millis(n)` / from_secs(n) item, in milliseconds"""
+    for fx in W.all_facts:
+        for f in fx.fn_list:
+            if f.kind == 'const' and (f.path == name or f.path.endswith('::' + name)):
+                for b in f.blocks:
+                    t = b.term
+                    if t.k == 'call' and t.callee.indirect is None:
+                        seg = last_seg(t.callee.best)
+                        if seg in ('from_millis', 'from_secs') and t.args and t.args[0].const_int() is not None:
+                            v = t.args[0].const_int()
+                            return v * (1000 if seg == 'from_secs' else 1)
+    raise AnchorMissing('Duration constant `%s` not found' % name)
+
+
+def event_constructions(W, fn, adt='Event', variant=None):
+    return [s for f2, s in W.constructions(adt, variant) if f2 is fn]
+
+
+def stores_in(W, fn, field, kinds=('store',)):
+    ex, _ = W.writes_to_field(field)
+    return [w for w in ex if w['fn'] is fn and w['kind'] in kinds]
+
+
+def guard_has_bool(g, keystr, pol):
+    return every_disjunct_has(g, lambda a: a == ('bool', keystr, pol))
+
+
+def guard_has_is(g, keystr, variant, pol=True):
+    def p(a):
+        if a == ('is', keystr, variant, pol):
+            return True
+        # a positive fact about another variant implies `is not variant`
+        if not pol and a[0] == 'is' and a[1] == keystr and a[3] and a[2] != variant:
+            return True
+        return False
+    return every_disjunct_has(g, p)
